@@ -143,7 +143,12 @@ let run (path : string) =
        let o = Gauge.Begin (now, benv) in
        if not (Gauge.op_wf o) then cmpf "env.recv_nonneg" "true" "false";
        (* known-finding classes met by this step (on the state it starts from) *)
-       let k2 = Gauge.kf2_begin now benv m and k3 = Gauge.kf3_begin now benv m and k4 = Gauge.kf4_begin now benv m in
+       (* the class predicates re-run the epochs; skip them where they are false by definition: class 2 needs a
+          failing fee transfer, classes 3 / 4 need a program *)
+       let some_recv_fails = (try L.exists2 (fun (g : Gauge.gauge) r -> g.Gauge.g_swap && (match r with Base.Ok _ -> false | _ -> true)) m.Gauge.r_gauges recvs with Invalid_argument _ -> true) in
+       let k2 = some_recv_fails && Gauge.kf2_begin now benv m in
+       let k3 = m.Gauge.r_exts <> [] && Gauge.kf3_begin now benv m in
+       let k4 = L.exists (fun (x : Gauge.ext) -> BinInt.Z.eqb x.Gauge.x_kind (zi 2)) m.Gauge.r_exts && Gauge.kf4_begin now benv m in
        if !dirty = "none" then (if k2 then dirty := "kf_C19_2" else if k3 then dirty := "kf_C19_3" else if k4 then dirty := "kf_C19_4");
        if k2 then bump "kf:C19_2:met"; if k3 then bump "kf:C19_3:met"; if k4 then bump "kf:C19_4:met";
        (* the input-delimited sufficient condition of c19_program_safe, per program that is due *)
